@@ -250,6 +250,42 @@ def reaching_value(name, at_node):
     return val
 
 
+def inline_locals(expr, at_node, depth=4):
+    """copy of expr in which every Name that has a unique dominating assignment (see reaching_value) is replaced by the
+    assigned expression, recursively: `k = (a, b); return hash(k)` reads as `hash((a, b))`.  Names without such a
+    definition (parameters, loop variables, ambiguous ones) are left alone."""
+    if depth == 0:
+        return copy.deepcopy(expr)
+    mapping = {}
+    for n in ast.walk(expr):
+        if isinstance(n, ast.Name) and isinstance(n.ctx, ast.Load) and n.id not in mapping:
+            v = reaching_value(n.id, at_node)
+            if v is not None and not any(isinstance(x, ast.Name) and x.id == n.id for x in ast.walk(v)):
+                mapping[n.id] = inline_locals(v, at_node, depth - 1)
+    return subst(expr, mapping) if mapping else copy.deepcopy(expr)
+
+
+def guard_atoms(node, stop=None):
+    """set of (normalised atom, polarity) over all enclosing if-tests of `node` (up to `stop`), conjunctions split:
+    nested ifs, one merged `and` and swapped conjuncts give the same set"""
+    out = set()
+    for g in guards_of(node):
+        if g.kind not in ('if', 'exit'):
+            continue
+        if stop is not None and not any(x is g.node for x in ast.walk(stop)):
+            continue
+        t = g.test
+        if g.polarity and isinstance(t, ast.BoolOp) and isinstance(t.op, ast.And):
+            for v in t.values:
+                out.add((norm(v), True))
+        elif (not g.polarity) and isinstance(t, ast.BoolOp) and isinstance(t.op, ast.Or):
+            for v in t.values:
+                out.add((norm(v), False))
+        else:
+            out.add((norm(t), g.polarity))
+    return out
+
+
 def subst(expr, mapping):
     """copy of expr with Name nodes replaced per mapping name -> ast expr"""
     class T(ast.NodeTransformer):
